@@ -170,6 +170,21 @@ func (e *varintEngine) evalExpr(x ast.Expr, env map[string]aval) (aval, error) {
 				return aval{}, und("bits.Len64 of non-class value")
 			}
 			return aval{kind: kInt, n: int64(a.L)}, nil
+		case "google.golang.org/protobuf/encoding/protowire.EncodeZigZag":
+			// protowire's zig-zag of the signed view of the parameter (A3): same result as the open-coded form
+			if len(t.Args) == 1 {
+				if conv, ok := ast.Unparen(t.Args[0]).(*ast.CallExpr); ok && len(conv.Args) == 1 && isTypeConv(info, conv, types.Int64) {
+					if id, ok := ast.Unparen(conv.Args[0]).(*ast.Ident); ok {
+						if v, ok := env[id.Name]; ok && v.kind == kS {
+							if !v.neg && v.L == 0 {
+								return aval{kind: kU, L: 0}, nil
+							}
+							return aval{kind: kU, L: v.L + 1}, nil
+						}
+					}
+				}
+			}
+			return aval{}, und("protowire.EncodeZigZag of something other than int64(<parameter>)")
 		case core.RepoModule + "/runtime.Sov":
 			a, err := e.evalExpr(t.Args[0], env)
 			if err != nil {
